@@ -72,7 +72,18 @@ class Sizer:
                 if agg_variant(r) == 'Ok':
                     r = r[2].get('0')
                 if r[0] == 'agg' and r[1] == 'tuple' and fc[-1] in r[2]:
-                    best = max(best, self.vec_bound(r[2][fc[-1]], depth + 1))
+                    comp = r[2][fc[-1]]
+                    lv = lib.loop_root(comp)
+                    if lv is not None:
+                        # a list grown in a loop: bounded when every iteration pushes at most once and the loop leaves when len == N
+                        try:
+                            st = lib.loop_stream(s, lv)
+                            n = term_int(st['cap']) if st['cap'] is not None else None
+                            best = max(best, n if n is not None else INF)
+                        except lib.Lost:
+                            best = INF
+                        continue
+                    best = max(best, self.vec_bound(comp, depth + 1))
                 else:
                     best = INF
             return best
